@@ -154,6 +154,13 @@ def check_prog(name):
     getattr(c33_prog, name).check()
 
 
+import ast as _ast  # noqa: E402
+from guppylang_internals.ast_util import annotate_location  # noqa: E402
+_SRC = "xs = [1, 2]\n"
+LOC = _ast.parse(_SRC).body[0]
+annotate_location(LOC, _SRC, "gate_call.py", 1)
+
+
 class Unrelated(Exception):
     pass
 
@@ -175,6 +182,8 @@ def run_history(h):
             seen.append(flag())
             objs.append((a[1], CLS[a[1]]()))
             trace.append([1, a[1], flag()])
+        elif k == "withobj" and a[1] >= len(objs):
+            trace.append([7, a[1]])      # the object was never constructed (an earlier exception skipped it)
         elif k in ("with", "withobj"):
             raised = [0]
             if k == "with":
@@ -195,7 +204,7 @@ def run_history(h):
             f = flag()
             try:
                 if a[2] is None:
-                    getattr(ex, a[1])(None)
+                    getattr(ex, a[1])(LOC)   # direct call of the gate with a located node
                 else:
                     check_prog(a[2])
             except GuppyError as e:
